@@ -224,6 +224,17 @@ Proof.
   destruct (status_eqb (st x) Recovering); [apply c19_recover1_shift|reflexivity].
 Qed.
 
+(* the ids still held by rebuilding trackers do not depend on the shift *)
+Lemma c19_holds_id_shift d l i : holds_id (map (shift_tr d) l) i = holds_id l i.
+Proof.
+  unfold holds_id. induction l as [|tr l IH]; [reflexivity|].
+  cbn [map existsb]. rewrite IH. f_equal.
+Qed.
+Lemma c19_kept_ids_shift d E l : kept_ids E (map (shift_tr d) l) = kept_ids E l.
+Proof.
+  unfold kept_ids. apply filter_ext. intro i. apply c19_holds_id_shift.
+Qed.
+
 (* ---- the events phase ---- *)
 Lemma c19_events_shift e d s :
   events_phase e (shift_sim d s)
@@ -261,6 +272,7 @@ Proof.
   destruct (cap_negative _ _); [reflexivity|].
   destruct (distribute_crash _ _ _ _); [reflexivity|].
   destruct (existsb _ _); [reflexivity|].
+  rewrite ?c19_kept_ids_shift.
   destruct (Nat.eqb _ 0); rewrite c19_recover_ledgers_shift;
     (destruct (any_negative _ _ _); reflexivity).
 Qed.
